@@ -33,8 +33,26 @@ def main():
         r = subprocess.run(["patch", "-p1", "-s", "-d", os.path.join(tmp, "repo"), "-i", os.path.abspath(a.patch)],
                            capture_output=True, text=True)
         if r.returncode != 0:
-            print("PATCH-FAILED", r.stdout, r.stderr)
-            return 3
+            # a later fix: commit rewrote the code this change was written against: evaluate it on the commit recorded
+            # in its meta.json ("base_commit") instead
+            base_commit = None
+            mp = os.path.join(os.path.dirname(os.path.abspath(a.patch)), "meta.json")
+            if os.path.exists(mp):
+                import json
+                base_commit = json.load(open(mp)).get("base_commit")
+            if not base_commit:
+                print("PATCH-FAILED", r.stdout, r.stderr)
+                return 3
+            shutil.rmtree(os.path.join(tmp, "repo"))
+            os.makedirs(os.path.join(tmp, "repo"))
+            ar = subprocess.run(f"git -C /repo archive {base_commit} torrentfile | tar -x -C {os.path.join(tmp, 'repo')}",
+                                shell=True, capture_output=True, text=True)
+            r = subprocess.run(["patch", "-p1", "-s", "-d", os.path.join(tmp, "repo"), "-i", os.path.abspath(a.patch)],
+                               capture_output=True, text=True)
+            if ar.returncode != 0 or r.returncode != 0:
+                print("PATCH-FAILED (also on base commit)", ar.stderr, r.stdout, r.stderr)
+                return 3
+            print(f"NOTE: does not apply to the current tree any more; evaluated on its base commit {base_commit}")
         allkilled = True
         for prop in a.props.split(","):
             killed = False
